@@ -151,7 +151,7 @@ theorem operands_mem (op : Str) (ts : List Tok) : ∀ o ∈ operands op ts, ∀ 
   rw [mkTL_ts]
   exact splitOn_mem op (lastEnd ts 0) ts p (by simpa using hp)
 
-theorem findOp_none {ops : List Str} {ts : List Tok} (h : findOp ops ts = none) : ∀ op ∈ ops, ts.any (Tok.isText op) = false := by
+theorem findOp_none_all {ops : List Str} {ts : List Tok} (h : findOp ops ts = none) : ∀ op ∈ ops, ts.any (Tok.isText op) = false := by
   induction ops with
   | nil => intro op hop; cases hop
   | cons a as ih =>
@@ -298,7 +298,7 @@ theorem parse_noint (ts : List Tok) (b e : Nat) (ipc : Bool) :
     · cases hc : naryOps.contains t.text with
       | false => rfl
       | true =>
-        have := findOp_none hop t.text (List.contains_iff_mem.mp hc)
+        have := findOp_none_all hop t.text (List.contains_iff_mem.mp hc)
         simp [ts1, Tok.isText] at this
     · simpa using hne
   | case11 ts b e ipc x t hs _ err heq _ _ _ _ ih =>
